@@ -84,3 +84,14 @@ def curved_chord_band(case, fail):
 def graph_cubic(case, fail):
     """F26: `C(t) in segment` misses points of some steep CUBIC graphs (quadratic graphs are complete)"""
     return case.get("k") == "graph" and len(case.get("seg", ())) == 4 and "in segment` is not True" in str(fail.get("what"))
+
+
+@cls("short_piece")
+def short_piece(case, fail):
+    """F15b: a split parameter between 1e-6 and 1e-5 from a segment end is kept by the 1e-6 filter and creates a
+    piece far below the library's other tolerances; clean() then merges or raises wrongly.  Input predicate only."""
+    from fractions import Fraction as F
+    if case.get("k") != "poly":
+        return False
+    lo, hi = F(1, 10 ** 6), F(1, 10 ** 5)
+    return any(lo <= F(u) < hi or lo <= 1 - F(u) < hi for u in case.get("nodes", ()))
